@@ -16,7 +16,7 @@ def run(c, a):
     # the same injections on the domain-shaped argument lists of the collection functions
     from checks.c13 import FNS
     jobs, outs = [], []
-    for fn in FNS[:-2]:
+    for fn in FNS[:-1]:
         out = c.path("c13ivec-%s.ndjson" % fn)
         jobs.append(("C13Gen", {"VFN": fn, "VMODE": "inject", "VTIER": c.tier, "VOUT": out}))
         outs.append(out)
